@@ -3,6 +3,7 @@
 // failing canary that the driver appends to the unit.
 pub struct RArr { pub len: int, pub at: spec_fn(int) -> real }
 pub struct RArr2 { pub n: int, pub m: int, pub at: spec_fn(int, int) -> real }
+pub struct RArr3 { pub at: spec_fn(int, int, int) -> real }
 pub enum LErr { E }
 /// L23: a value the lifter could not model (tolerant lifts)
 #[verifier::external_body] pub struct LOpaque { _p: () }
